@@ -16,8 +16,11 @@
 //   computeRSMatrix = S_x * R_y * T_A (documented mix): 16 * max(cond_A,cond_B) * eps * max|s_x|
 //   a zero scale (an exactly zero row) must be reported: false with exc=false (outputs untouched as the
 //   header comment documents), std::domain_error with exc=true.
+//   singular linear parts without a zero row: see Shrt3d::singular; extractSHRT's rOrder / Euler& in the 18 repeated-axis
+//   and rotating-frame orders: see section G of Shrt3d::regular (tolerance = factor bound + 48 eps max|s| (1+sum|h|)).
 #pragma once
 #include "c12.hpp"
+#include "c11.hpp" // c11::ORDERS: the 24 Order values taken from the real header, with their names
 
 namespace c12 {
 
@@ -25,12 +28,16 @@ struct ShrtTally
 {
     long long cases = 0, transitions = 0, reflections = 0, graded = 0, sheared = 0, lock = 0, generic = 0;
     long long degenerate = 0, tiny = 0, tiny_reported = 0, rs = 0, rorder = 0, euler_overload = 0;
+    long long order_cls[4] = {0, 0, 0, 0}; // extractSHRT rOrder / Euler& calls by order class
+    long long sing_exact = 0, sing_residue = 0, sing_residue_reported = 0, sing_residue_decomposed = 0;
     double    w_recompose = 0, w_ortho = 0, w_sans = 0, w_rs = 0;
     void merge (const ShrtTally& o)
     {
         cases += o.cases; transitions += o.transitions; reflections += o.reflections; graded += o.graded; sheared += o.sheared; lock += o.lock;
         generic += o.generic; degenerate += o.degenerate; tiny += o.tiny; tiny_reported += o.tiny_reported; rs += o.rs; rorder += o.rorder;
         euler_overload += o.euler_overload;
+        for (int i = 0; i < 4; ++i) order_cls[i] += o.order_cls[i];
+        sing_exact += o.sing_exact; sing_residue += o.sing_residue; sing_residue_reported += o.sing_residue_reported; sing_residue_decomposed += o.sing_residue_decomposed;
         w_recompose = std::max (w_recompose, o.w_recompose); w_ortho = std::max (w_ortho, o.w_ortho); w_sans = std::max (w_sans, o.w_sans);
         w_rs = std::max (w_rs, o.w_rs);
     }
@@ -228,6 +235,55 @@ template <class T> struct Shrt3d
             }
             t.transitions += 2;
         }
+        t.order_cls[0] += 6;
+        // G. the other 18 Order values accepted by the rOrder parameter and by the Euler& overload (repeated-axis and
+        // rotating-frame orders). The rotation the angles stand for is the harness's own reference (c11_ref.hpp
+        // eulerRef: product of elementary rotations decoded from the Order bit-fields), applied to
+        //   - the slots of the Euler handed to the Euler& overload, and
+        //   - the slots of Euler(r, rOrder, XYZLayout) for the Vec3 overload, whose r is documented only as "the
+        //     XYZ-layout vector of that order" (the library constructor is used as the decoder of the layout only; C11
+        //     decides that it is the inverse permutation of toXYZVector).
+        // Tolerance: the rotation goes through extractEulerXYZ (rebuild <= 16 eps), Euler(XYZ)::toMatrix33 (8 eps),
+        // extraction in the new order (16 eps, flat, also at that order's gimbal lock) and the reference's view of those
+        // angles (8 eps): |dR| <= 48 eps, which S*H amplifies by at most max|s| (1 + sum|h|); added to the factor bound.
+        LD smax = std::max (fabsl (f.s[0]), std::max (fabsl (f.s[1]), fabsl (f.s[2])));
+        const LD tolO = tol + 48 * eps * smax * (1 + fabsl (f.h[0]) + fabsl (f.h[1]) + fabsl (f.h[2]));
+        for (int o = 0; o < 24; ++o)
+        {
+            typedef Euler<T> E;
+            const ref::OrderInfo& O = c11::ORDERS[o];
+            if (O.frameStatic () && !O.repeated ()) continue; // judged under F
+            const typename E::Order ord = (typename E::Order) O.value;
+            const std::string       oc  = O.cls ();
+            ++t.order_cls[(O.frameStatic () ? 0 : 2) + (O.repeated () ? 1 : 0)];
+            V3 so, ho, ro, to;
+            bool oko = false;
+            try { oko = extractSHRT (M, so, ho, ro, to, false, ord); } catch (...) {}
+            ++t.rorder;
+            if (!oko) Rp.fail ("extractSHRT(rOrder).regular-matrix-reported-degenerate", in () + " rOrder=" + O.name);
+            else
+            {
+                E  dec (ro, ord, E::XYZLayout);
+                LD e = recomposeErr (so, ho, ref::eulerRef (O, dec.x, dec.y, dec.z), Mlin);
+                if (!(e <= tolO) || !sameVec (to, tr))
+                    failThrottled ("extractSHRT(rOrder).recompose." + oc + "-order", [&] { return in () + " rOrder=" + O.name; }, [&] { return "S*H*R(Euler(r,rOrder,XYZLayout))*T = M within " + ref::fmtE (tolO); },
+                                   [&] { return ref::fmtE (e) + " off; r=" + fmtVec (ro) + " t=" + fmtVec (to); });
+            }
+            E  er (ord);
+            V3 se, he, te;
+            bool oke = false;
+            try { oke = extractSHRT (M, se, he, er, te, false); } catch (...) {}
+            ++t.euler_overload;
+            if (!oke) Rp.fail ("extractSHRT(Euler&).regular-matrix-reported-degenerate", in () + " order=" + O.name);
+            else
+            {
+                LD ee = recomposeErr (se, he, ref::eulerRef (O, er.x, er.y, er.z), Mlin);
+                if (!(ee <= tolO) || er.order () != ord || !sameVec (te, tr))
+                    failThrottled ("extractSHRT(Euler&).recompose." + oc + "-order", [&] { return in () + " order=" + O.name; }, [&] { return "S*H*R(euler)*T = M within " + ref::fmtE (tolO) + ", order kept"; },
+                                   [&] { return ref::fmtE (ee) + " off; euler slots=" + fmtVec ((const V3&) er) + " order=" + c11::hex4 ((int) er.order ()); });
+            }
+            t.transitions += 2;
+        }
     }
 
     // ---- exactly zero scale on at least one axis: must be reported, nothing decomposed
@@ -276,6 +332,113 @@ template <class T> struct Shrt3d
         expectThrow ("removeScalingAndShear(Matrix44).zero-scale-not-reported", in, [&] { w = M; removeScalingAndShear (w); });
         expectThrow ("computeRSMatrix.degenerate-A-not-reported", in, [&] { computeRSMatrix (true, true, M, regularM); });
         expectThrow ("computeRSMatrix.degenerate-B-not-reported", in, [&] { computeRSMatrix (false, false, regularM, M); });
+        t.transitions += 20;
+    }
+
+    // ---- exactly singular linear part WITHOUT a zero row: integer rows over {-1,0,1,2}, exact rank < 3.
+    // Such a matrix has no S*H*R factorisation at all (a dependent row would need an infinite shear). What the
+    // statement and the header promise for it:
+    //  (1) the answer "degenerate or not" belongs to the matrix: the ten entry points agree with each other, and exc = true
+    //      throws std::domain_error exactly when exc = false reports (the header documents exc as selecting the style only);
+    //  (2) when reported with exc = false the documented fallbacks hold (m unchanged / m returned / result = mat);
+    //  (3) when the scale that the documented technique (Gram-Schmidt on the rows in order, after an exact division by the
+    //      largest entry, here 1 or 2) extracts is EXACTLY zero with no rounding anywhere, the guard must fire. That is
+    //      provable from the input when row 0 lies along a coordinate axis a and either row 1 does too, or the remainder of
+    //      row 1 lies along a second axis c and row 2 has no component on the third axis: every length is |integer|/maxVal,
+    //      every normalised row is +-e_axis, every dot product and subtraction is exact, the dependent row cancels to
+    //      (0,0,0). Judged under "<entry point>.exactly-zero-scale-after-orthogonalisation-not-reported".
+    // For every other singular matrix the cancellation leaves a rounding residue (a scale of a few eps and a shear of 1/eps):
+    // the library documents its guard as "scl is small enough that the operation would overflow", the residue is not, and
+    // a one-ulp perturbation of the input makes the same matrix a regular "nearly singular" one, which the statement
+    // excludes. Those are counted (reported / decomposed) and only held to (1) and (2), not to "must be reported".
+    static bool exactZeroScale (const int d[9])
+    {
+        int a = -1, nz = 0;
+        for (int j = 0; j < 3; ++j) if (d[j]) { a = j; ++nz; }
+        if (nz != 1) return false;
+        int c = -1, nz1 = 0;
+        for (int j = 0; j < 3; ++j) if (j != a && d[3 + j]) { c = j; ++nz1; }
+        if (nz1 == 0) return true;  // row 1 parallel to row 0: scale.y is exactly 0
+        if (nz1 == 2) return false; // |row 1 remainder| is an inexact square root
+        int b = 3 - a - c;
+        return d[6 + b] == 0;       // row 2 inside the (a,c) plane: scale.z is exactly 0
+    }
+    void singular (const int d[9], const M44& regularM, ShrtTally& t) const
+    {
+        auto& Rp = vf::R ();
+        M44   M;
+        for (int i = 0; i < 3; ++i) for (int j = 0; j < 3; ++j) M[i][j] = (T) d[3 * i + j];
+        M[3][0] = 3; M[3][1] = 5; M[3][2] = -7;
+        const bool  exact = exactZeroScale (d);
+        std::string in    = "T=" + std::string (ref::tname<T> ()) + " M=" + ref::fmtLib<4> (M);
+        ++t.cases;
+        (exact ? t.sing_exact : t.sing_residue)++;
+        static const char* const FN[9] = {"extractSHRT", "extractScaling", "extractScalingAndShear", "extractAndRemoveScalingAndShear", "sansScaling(Matrix44)",
+                                          "removeScaling(Matrix44)", "sansScalingAndShear(Matrix44)", "sansScalingAndShear(result,mat)", "removeScalingAndShear(Matrix44)"};
+        bool rep[9], untouched[9];
+        for (int i = 0; i < 9; ++i) untouched[i] = true;
+        V3  s, h, r, tr;
+        M44 w;
+        try
+        {
+            rep[0] = !extractSHRT (M, s, h, r, tr, false);
+            rep[1] = !extractScaling (M, s, false);
+            rep[2] = !extractScalingAndShear (M, s, h, false);
+            w = M; rep[3] = !extractAndRemoveScalingAndShear (w, s, h, false); untouched[3] = sameMat<4> (w, M);
+            // the returned H*R*T / R*T has a linear part of determinant 1 and can never equal the singular input
+            rep[4] = sameMat<4> (sansScaling (M, false), M);
+            w = M; rep[5] = !removeScaling (w, false); untouched[5] = sameMat<4> (w, M);
+            rep[6] = sameMat<4> (sansScalingAndShear (M, false), M);
+            w = M; sansScalingAndShear (w, regularM, false); rep[7] = sameMat<4> (w, regularM);
+            w = M; rep[8] = !removeScalingAndShear (w, false); untouched[8] = sameMat<4> (w, M);
+        }
+        catch (...) { Rp.fail ("singular-matrix.exc-false-throws", in); return; }
+        bool agree = true;
+        for (int i = 1; i < 9; ++i) agree = agree && rep[i] == rep[0];
+        if (!agree)
+        {
+            std::string g;
+            for (int i = 0; i < 9; ++i) g += std::string (i ? " " : "") + FN[i] + "=" + (rep[i] ? "reported" : "decomposed");
+            Rp.fail ("singular-matrix.entry-points-disagree", in, "one answer for one matrix", g);
+        }
+        for (int i = 0; i < 9; ++i)
+        {
+            if (rep[i] && !untouched[i]) Rp.fail (std::string (FN[i]) + ".singular-matrix.reported-but-matrix-modified", in, "false, m unchanged");
+            if (exact && !rep[i]) Rp.fail (std::string (FN[i]) + ".exactly-zero-scale-after-orthogonalisation-not-reported", in, "reported (exc=false)", "decomposed; s=" + fmtVec (s) + " h=" + fmtVec (h));
+        }
+        // exc = true: std::domain_error exactly when exc = false reported (computeRSMatrix always behaves as exc = true)
+        auto thrown = [&] (int i) -> int {
+            try
+            {
+                switch (i)
+                {
+                    case 0: extractSHRT (M, s, h, r, tr, true); break;
+                    case 1: extractScaling (M, s); break;
+                    case 2: extractScalingAndShear (M, s, h); break;
+                    case 3: w = M; extractAndRemoveScalingAndShear (w, s, h); break;
+                    case 4: sansScaling (M); break;
+                    case 5: w = M; removeScaling (w); break;
+                    case 6: sansScalingAndShear (M); break;
+                    case 7: w = M; sansScalingAndShear (w, regularM); break;
+                    case 8: w = M; removeScalingAndShear (w); break;
+                    case 9: computeRSMatrix (true, true, M, regularM); break;
+                    default: computeRSMatrix (false, false, regularM, M); break;
+                }
+                return 0;
+            }
+            catch (const std::domain_error&) { return 1; }
+            catch (...) { return 2; }
+        };
+        for (int i = 0; i < 11; ++i)
+        {
+            int         th = thrown (i);
+            const char* fn = i < 9 ? FN[i] : (i == 9 ? "computeRSMatrix(A)" : "computeRSMatrix(B)");
+            bool        rp = rep[i < 9 ? i : 0];
+            if (th == 2) Rp.fail (std::string (fn) + ".singular-matrix.exc-true-vs-exc-false", in, "std::domain_error or a normal return", "a different exception");
+            else if ((th == 1) != rp) Rp.fail (std::string (fn) + ".singular-matrix.exc-true-vs-exc-false", in, rp ? "std::domain_error (exc=false reported)" : "normal return (exc=false decomposed)", th ? "std::domain_error" : "returned normally");
+            if (exact && th != 1) Rp.fail (std::string (fn) + ".exactly-zero-scale-after-orthogonalisation-not-reported", in, "std::domain_error", "returned normally");
+        }
+        if (!exact) (rep[0] ? t.sing_residue_reported : t.sing_residue_decomposed)++;
         t.transitions += 20;
     }
 
@@ -374,13 +537,19 @@ template <class T> inline void run_shrt3d (int part)
                 if (sheared) ++l.sheared;
                 if (lock) ++l.lock;
                 if (!refl && !graded && !sheared && !lock) ++l.generic;
-                chk.regular (f, [&] { return tagOf (f, ri); }, l, hi_ >= 27);
+                // rOrder / Euler& in all 24 orders: on the two generic shears with every rotation, and on each of the 27
+                // lattice shears with every 24th rotation (24 is coprime to the table's base, so all three angles vary)
+                chk.regular (f, [&] { return tagOf (f, ri); }, l, hi_ >= 27 || ri % 24 == 7);
             }
             std::lock_guard<std::mutex> g (mu);
             G.merge (l);
         });
         R ().add ("states", G.cases); R ().add ("evaluations", G.cases); R ().add ("transitions", G.transitions);
         R ().add ("extractSHRT_rOrder_calls", G.rorder); R ().add ("extractSHRT_Euler_overload_calls", G.euler_overload);
+        R ().cls ("shrt3d.extractSHRT-order.static-nonrepeated", G.order_cls[0]);
+        R ().cls ("shrt3d.extractSHRT-order.static-repeated", G.order_cls[1]);
+        R ().cls ("shrt3d.extractSHRT-order.rotating-nonrepeated", G.order_cls[2]);
+        R ().cls ("shrt3d.extractSHRT-order.rotating-repeated", G.order_cls[3]);
         R ().cls ("shrt3d.reflection(odd number of negative scales)", G.reflections);
         R ().cls ("shrt3d.graded-scales", G.graded);
         R ().cls ("shrt3d.sheared", G.sheared);
@@ -389,7 +558,8 @@ template <class T> inline void run_shrt3d (int part)
         R ().note_max ("worst 3-D recomposition error / (cond eps |M|) (" + tn + ")", G.w_recompose);
         R ().note_max ("worst 3-D residual-rotation orthonormality (eps, " + tn + ")", G.w_ortho);
         R ().note_max ("worst sansScaling(Matrix44) linear error / (cond eps |HR|) (" + tn + ")", G.w_sans);
-        std::string b = "8^3 scales x 29 shears (L(1)^3 + 2 generic) x " + std::to_string (nr) + " rotations x " + std::to_string (nt) + " translations, " + tn;
+        std::string b = "8^3 scales x 29 shears (L(1)^3 + 2 generic) x " + std::to_string (nr) + " rotations x " + std::to_string (nt) + " translations, " + tn +
+                        "; extractSHRT rOrder / Euler& in all 24 orders on the generic shears and on every 24th rotation of the lattice shears";
         if (ok) R ().stage_done (b); else R ().stage_partial (std::to_string (G.cases) + " of " + b);
     }
 
@@ -423,6 +593,39 @@ template <class T> inline void run_shrt3d (int part)
         R ().cls ("shrt3d.zero-scale(guard fires)", G.degenerate);
         R ().cls ("shrt3d.scale-1e-30", G.tiny);
         R ().stage_done ("s in {0,1e-30,1,-2}^3 with a zero or 1e-30 axis x 3 shears x every (n/27)-th rotation, " + tn + ": zero rows reported by all ten entry points in both exc modes");
+    }
+
+    if (part == 0 && R ().stage ("shrt3d-singular-" + tn))
+    {
+        ShrtTally G;
+        Shrt3 reg;
+        for (int a = 0; a < 3; ++a) { reg.s[a] = 1 + a; reg.h[a] = GENERIC_H[0][a]; reg.t[a] = TRANS[0][a]; }
+        reg.R = Rtab[nr / 3 + 1];
+        const Matrix44<T> regularM = toLib44<T> (affine (linOf (reg), reg.t));
+        bool ok = vf::parallel_chunks (262144, 4096, [&] (uint64_t lo, uint64_t hi, unsigned) {
+            ShrtTally l;
+            for (uint64_t i = lo; i < hi; ++i)
+            {
+                int d[9];
+                ex::decode (i, 4, 9, d, -1);
+                bool zeroRow = false;
+                for (int r = 0; r < 3; ++r) zeroRow = zeroRow || (d[3 * r] == 0 && d[3 * r + 1] == 0 && d[3 * r + 2] == 0);
+                if (zeroRow) continue; // the zero-scale class of shrt3d-degenerate
+                long long a[9];
+                for (int k = 0; k < 9; ++k) a[k] = d[k];
+                if (ref::rankExact (a, 3, 3) == 3) continue;
+                chk.singular (d, regularM, l);
+            }
+            std::lock_guard<std::mutex> g (mu);
+            G.merge (l);
+        });
+        R ().add ("states", G.cases); R ().add ("evaluations", G.cases); R ().add ("transitions", G.transitions);
+        R ().add ("singular_rounding_residue_reported(not judged)", G.sing_residue_reported);
+        R ().add ("singular_rounding_residue_decomposed(not judged)", G.sing_residue_decomposed);
+        R ().cls ("shrt3d.singular-no-zero-row.exactly-zero-scale-after-orthogonalisation(guard must fire)", G.sing_exact);
+        R ().cls ("shrt3d.singular-no-zero-row.rounding-residue-scale(counted, held to consistency only)", G.sing_residue);
+        std::string b = "all 3x3 linear parts over {-1,0,1,2} of exact rank < 3 without a zero row, " + tn + ": ten entry points x both exc modes";
+        if (ok) R ().stage_done (b); else R ().stage_partial (b);
     }
 
     if (part == 0 && R ().stage ("computeRSMatrix-" + tn))
